@@ -266,11 +266,14 @@ def d4_interval_indexing(ctx):
     good = len(comb) == 1 and [astx.u(a) for a in comb[0].args] == ["list(self.pref_intervals_by_bloc[bloc].values())", "[cohesion_parameters[bloc], 1 - cohesion_parameters[bloc]]"]
     ctx.check(good, f, comb[0] if comb else f.node, "CambridgeSampler: candidates ordered by PL over the voter bloc's combined interval", "", "Cambridge combined-interval construction changed")
     pm = astx.parents(f.node)
-    sel = [st for st, dv in astx.defs_of(f.node, "bloc_ordering")]
+    sel = [(st, dv) for st, dv in astx.defs_of(f.node, "bloc_ordering")]
     ok1 = ok2 = False
-    for st in sel:
+    for st, dv in sel:
+        if dv is None:
+            ctx.undecided(f, st, "Cambridge bloc/cross split", "bloc_ordering is bound by a loop / unpacking, not by the two documented assignments")
+            return
         lits = literals(N.conj(astx.path_condition(f.node, st, pm)))
-        v = astx.u(st.value)
+        v = astx.u(dv)
         if literals(spec_guard("i < bloc_voters", int_atoms=lambda a: True)) <= lits:
             ok1 = v == "bloc_voter_ordering[i]"
         elif literals(spec_guard("i >= bloc_voters", int_atoms=lambda a: True)) <= lits:
